@@ -462,6 +462,9 @@ def register_edits(B, ctx, edits, asm_hook=None):
         else:
             raise ValueError(e["op"])
     attempt_refused(len(edits))
+    # register_insert_function(name, patch)
+    for f in (B.case.get("insert_functions") or []) if getattr(B, "case", None) else []:
+        ctx.register_insert_function(f["name"], make_patch(f["asm"]))
     # retarget_symbol_uses(old, new), by name
     for old_name, new_name in (B.case.get("retargets") or []) if getattr(B, "case", None) else []:
         so = next(y for y in B.m.symbols if y.name == old_name)
